@@ -75,7 +75,7 @@ def name_harness(L):
     def path(e):
         D, data = byt.sym_audio(e, "D", 2)
         p = I("p")
-        e.assume(p >= 0)
+        e.assume(z3.And(p >= 0, D.nsamples >= 1))
         fs = iostub.FS()
         iostub.install(L, fs)
         meta = dict(kind="name", sw=2, ch=1, sr=10)
